@@ -11,6 +11,11 @@
 //@end
 impl WelcomeError { #[verifier::external_body] pub fn to_string(&self) -> String { unimplemented!() } }
 impl Clone for Welcome { #[verifier::external_body] fn clone(&self) -> (r: Self) ensures r == *self { unimplemented!() } }
+impl PartialEq for WelcomeState { #[verifier::external_body] fn eq(&self, other: &Self) -> (r: bool) { unimplemented!() } }
+impl vstd::std_specs::cmp::PartialEqSpecImpl for WelcomeState {
+    open spec fn obeys_eq_spec() -> bool { true }
+    open spec fn eq_spec(&self, other: &Self) -> bool { *self == *other }
+}
 impl PartialEq for ProcessedWelcomeState { #[verifier::external_body] fn eq(&self, other: &Self) -> (r: bool) { unimplemented!() } }
 impl vstd::std_specs::cmp::PartialEqSpecImpl for ProcessedWelcomeState {
     open spec fn obeys_eq_spec() -> bool { true }
